@@ -1,6 +1,7 @@
 (* C11 — Problem and solution documents survive round trips.
    Only the property theorems, each closed by `exact`. *)
 From VRP Require Import Base.Tac Base.Json Model.SerdeSem Generated.ProblemCodec Generated.SolutionCodec Proofs.CodecP.
+From VRP Require Import Model.Csv Proofs.CsvP Model.InitReader Proofs.InitReaderP.
 
 (* (a) serialise -> parse -> serialise is the identity on the serialised form, for every value of the document types
    (the Coq types are generated from the Rust types: bounded integers, finite floats) *)
@@ -29,3 +30,119 @@ Theorem C11_nonvacuous_break_time_empty_offset :
   dec_VehicleOptionalBreakTime (enc_VehicleOptionalBreakTime (VehicleOptionalBreakTime_TimeOffset []))
   = Some (VehicleOptionalBreakTime_TimeWindow []).
 Proof. exact break_time_empty_offset_ambiguous. Qed.
+
+(* ------------------------------------------------------------------------------------------------------------
+   (c) CSV import: the imported problem carries exactly the tables' data.  `ord` is the (hash) order in which the
+   distinct job ids come out; read_jobs uses first-occurrence order. *)
+Theorem C11_csv_row_reappears : forall ord rows r,
+  In r rows -> In (jr_id r) ord ->
+  exists j, In j (read_jobs_ord ord rows) /\ Job_id j = jr_id r /\
+            In (task_of_row r) (bucket_of (i32v (jr_demand r)) j).
+Proof. exact csv_row_reappears. Qed.
+Theorem C11_csv_task_from_row : forall ord rows j t d,
+  In j (read_jobs_ord ord rows) -> In t (bucket_of d j) ->
+  exists r, In r rows /\ jr_id r = Job_id j /\ t = task_of_row r /\ bucket_sel d (i32v (jr_demand r)) = true.
+Proof. exact csv_task_from_row. Qed.
+Theorem C11_csv_task_data : forall r,
+  JobTask_places (task_of_row r) =
+    [mk_JobPlace (Location_Coordinate (jr_lat r) (jr_lng r)) (fl_of_Z (usizev (jr_duration r)))
+       (match jr_tw_start r, jr_tw_end r with Some s, Some e => Some [[s; e]] | _, _ => None end) None]
+  /\ JobTask_order (task_of_row r) = None
+  /\ (i32v (jr_demand r) = 0 -> JobTask_demand (task_of_row r) = None)
+  /\ (i32v (jr_demand r) <> 0 -> i32v (jr_demand r) <> -2147483648 ->
+      exists a, JobTask_demand (task_of_row r) = Some [a] /\ i32v a = Z.abs (i32v (jr_demand r))).
+Proof. exact csv_task_data. Qed.
+Theorem C11_csv_jobs_only_tasks : forall ord rows j,
+  In j (read_jobs_ord ord rows) ->
+  Job_replacements j = None /\ Job_skills j = None /\ Job_value j = None /\ Job_group j = None /\ Job_compatibility j = None.
+Proof. exact csv_no_replacements. Qed.
+Theorem C11_csv_job_ids_distinct : forall rows, NoDup (map Job_id (read_jobs rows)).
+Proof. exact csv_job_ids_distinct. Qed.
+Theorem C11_csv_job_ids_cover : forall rows id,
+  In id (map Job_id (read_jobs rows)) <-> exists r, In r rows /\ jr_id r = id.
+Proof. exact csv_job_ids_cover. Qed.
+Theorem C11_csv_vehicle_rows : forall ord pord rows vrows,
+  Fleet_vehicles (Problem_fleet (read_csv_ord ord pord rows vrows)) = map veh_of_row vrows.
+Proof. exact csv_vehicle_rows. Qed.
+Theorem C11_csv_vehicle_data : forall r,
+  let v := veh_of_row r in
+  let depot := Location_Coordinate (vr_lat r) (vr_lng r) in
+  VehicleType_type_id v = vr_id r /\
+  VehicleProfile_matrix (VehicleType_profile v) = vr_profile r /\
+  VehicleType_capacity v = [vr_capacity r] /\
+  VehicleType_shifts v = [mk_VehicleShift (mk_ShiftStart (vr_tw_start r) None depot)
+                            (Some (mk_ShiftEnd None (vr_tw_end r) depot)) None None None] /\
+  List.length (VehicleType_vehicle_ids v) = Z.to_nat (usizev (vr_amount r)) /\
+  VehicleType_skills v = None /\ VehicleType_limits v = None.
+Proof. exact csv_vehicle_data. Qed.
+Theorem C11_csv_profiles : forall rows vrows name,
+  In name (map MatrixProfile_name (Fleet_profiles (Problem_fleet (read_csv rows vrows)))) <->
+  exists r, In r vrows /\ vr_profile r = name.
+Proof. exact csv_profiles. Qed.
+(* "is a valid problem" fails: vehicle ids are "<PROFILE>_<seq>", so two vehicle rows with one profile collide (E1301) *)
+Theorem C11_csv_valid_refuted :
+  exists vrows, NoDup (map vr_id vrows) /\ ~ NoDup (all_vehicle_ids (read_csv [] vrows)).
+Proof. exact csv_valid_refuted. Qed.
+Theorem C11_csv_shared_profile_collides : forall ord pord rows vs1 r1 vs2 r2,
+  vr_profile r1 = vr_profile r2 ->
+  (1 <= Z.to_nat (usizev (vr_amount r1)))%nat -> (1 <= Z.to_nat (usizev (vr_amount r2)))%nat ->
+  ~ NoDup (all_vehicle_ids (read_csv_ord ord pord rows (vs1 ++ r1 :: vs2 ++ [r2]))).
+Proof. exact csv_shared_profile_collides. Qed.
+(* the import is not total on the documented tables: DEMAND = i32::MIN overflows in `abs` (exactly then) *)
+Theorem C11_csv_panics_iff : forall rows,
+  csv_panics rows = true <-> exists r, In r rows /\ i32v (jr_demand r) = -2147483648.
+Proof. exact csv_panics_iff. Qed.
+Theorem C11_csv_total_refuted : exists rows, csv_panics rows = true.
+Proof. exact csv_total_refuted. Qed.
+Theorem C11_csv_nonvacuous :
+  csv_panics [wit_jrow (Mk_i32 3 eq_refl)] = false /\
+  map Job_id (read_jobs [wit_jrow (Mk_i32 3 eq_refl); wit_jrow (Mk_i32 (-3) eq_refl)]) = ["job1"%string] /\
+  NoDup (all_vehicle_ids (read_csv [] [wit_vrow "vehicle1"])).
+Proof. exact csv_nonvacuous_witness. Qed.
+
+(* ------------------------------------------------------------------------------------------------------------
+   (b) a written customer activity is matched back to its own job, place and time window when no other place of the
+   task fits the same location / time and the service does not touch a later window of the place *)
+Theorem C11_init_match_place_back : forall s i p k ws we start loc ts te,
+  nth_error (s_places s) i = Some p ->
+  loc_ok p loc = true ->
+  nth_error (p_times p) k = Some (SWindow ws we) ->
+  le_zo ws we = true ->
+  intersects (ws, we) (ts, Some te) = true ->
+  (forall j q, j <> i -> nth_error (s_places s) j = Some q ->
+     accepts q loc start (ws, we) = false /\ accepts q loc start (ts, Some te) = false) ->
+  (forall k' sp', (k < k')%nat -> nth_error (p_times p) k' = Some sp' ->
+     intersects (to_window start sp') (ts, Some te) = false) ->
+  match_place s true (written_actx s start loc (ws, we) ts te) = Some (i, loc, p_dur p, (ws, we)).
+Proof. exact match_place_back. Qed.
+Theorem C11_init_match_multi_back : forall ss k s i p kk ws we start loc ts te,
+  (List.length ss <= List.length (dedup_s (flat_map (fun s => map snd (s_tags s)) ss)))%nat ->
+  nth_error ss k = Some s ->
+  nth_error (s_places s) i = Some p -> loc_ok p loc = true ->
+  nth_error (p_times p) kk = Some (SWindow ws we) -> le_zo ws we = true ->
+  intersects (ws, we) (ts, Some te) = true ->
+  (forall j q, j <> i -> nth_error (s_places s) j = Some q ->
+     accepts q loc start (ws, we) = false /\ accepts q loc start (ts, Some te) = false) ->
+  (forall k' sp', (kk < k')%nat -> nth_error (p_times p) k' = Some sp' ->
+     intersects (to_window start sp') (ts, Some te) = false) ->
+  (forall j s', (j < k)%nat -> nth_error ss j = Some s' ->
+     same_tags (get_job_tag s' loc (ts, Some te) start) (get_job_tag s loc (ws, we) start) = false) ->
+  try_match_job (JMulti ss) (written_actx s start loc (ws, we) ts te) = Some (k, (i, loc, p_dur p, (ws, we))).
+Proof. exact try_match_multi_back. Qed.
+(* both side conditions are needed — the unconditional statement ("each at the place the solver used") is false: *)
+Theorem C11_init_later_window_refuted :
+  exists s start loc ws we ts te m,
+    nth_error (s_places s) 0%nat = Some (mk_place (Some loc) 10 [SWindow ws (Some we); SWindow 15 (Some 25)]) /\
+    ws <= ts <= we /\ ts <= te /\
+    match_place s true (written_actx s start loc (ws, Some we) ts te) = Some m /\ snd m <> (ws, Some we).
+Proof. exact later_window_refuted. Qed.
+Theorem C11_init_same_location_place_refuted :
+  exists s start loc ws we ts te p m,
+    nth_error (s_places s) 1%nat = Some p /\ In (SWindow ws (Some we)) (p_times p) /\ loc_ok p loc = true /\
+    ws <= ts <= we /\ te = ts + p_dur p /\
+    NoDup (map snd (s_tags s)) /\ List.length (s_tags s) = List.length (s_places s) /\
+    match_place s true (written_actx s start loc (ws, Some we) ts te) = Some m /\ fst (fst (fst m)) <> 1%nat.
+Proof. exact same_location_place_refuted. Qed.
+Theorem C11_init_nonvacuous :
+  match_place w2_single true (written_actx w2_single 0 1 (0, Some 10) 2 9) = Some (0%nat, 1, 10, (0, Some 10)).
+Proof. exact match_back_nonvacuous. Qed.
